@@ -59,8 +59,10 @@ class _FakeTime:
 
 
 class World:
-    def __init__(self, *, noise_psk=None, expected_name=None, password=None, keepalive=20.0, addresses=None):
+    def __init__(self, *, noise_psk=None, expected_name=None, password=None, keepalive=20.0, addresses=None, real_resolver=False):
         self.loop = SimLoop().activate()
+        self.real_resolver = real_resolver
+        self.zw = None
         self.state_log: list = []  # (prev, new)
         self.stops: list = []  # on_stop arguments
         self.bad_transition: list = []
@@ -89,7 +91,19 @@ class World:
         self._orig = (CN.hr.async_resolve_host, CN.aiohappyeyeballs.start_connection, CL.APIConnection)
         self._orig_time = CN.time
         CN.time = _FakeTime(1700000000)  # GetTimeRequest reads the wall clock: pinned
-        CN.hr.async_resolve_host = self._resolve
+        if real_resolver:
+            # the real async_resolve_host runs: the device is addressed by an mDNS name, the mDNS request
+            # is answered when the scenario says so, the OS resolver fallback knows the name too
+            from aioesphomeapi.zeroconf import ZeroconfManager
+            from vf.stubs_zc import ZcWorld
+
+            self.zw = ZcWorld().install()
+            self.zw.mdns_answer = self._mdns_answer
+            self.params.addresses = ["dev.local"]
+            self.params.zeroconf_manager = ZeroconfManager()
+            self.loop.getaddrinfo_impl = self._getaddrinfo
+        else:
+            CN.hr.async_resolve_host = self._resolve
         CN.aiohappyeyeballs.start_connection = self._start_connection
         CL.APIConnection = LoggedConnection
         self.conn = None
@@ -118,6 +132,21 @@ class World:
         f = self.loop.create_future()
         self.resolve_futs.append(f)
         return await f
+
+    async def _mdns_answer(self, info, zc, timeout):
+        from ipaddress import IPv4Address
+
+        if self.resolve_mode == "ok":
+            return ([IPv4Address("10.0.0.1")], [])
+        if self.resolve_mode == "error":
+            raise OSError("mDNS request failed")
+        f = self.loop.create_future()
+        self.resolve_futs.append(f)
+        await f
+        return ([IPv4Address("10.0.0.1")], [])
+
+    async def _getaddrinfo(self, host, port):
+        return [(socket.AF_INET, socket.SOCK_STREAM, 6, "", ("10.0.0.1", port))]
 
     async def _start_connection(self, addr_infos, **kw):
         if self.connect_mode == "ok":
@@ -190,6 +219,8 @@ class World:
         try:
             self.loop.shutdown()
         finally:
+            if self.zw is not None:
+                self.zw.uninstall()
             CN.hr.async_resolve_host, CN.aiohappyeyeballs.start_connection, CL.APIConnection = self._orig
             CN.time = self._orig_time
 
